@@ -33,7 +33,8 @@ EXPR = {
 # other spellings of an unknown function: dotted names whose parts are implemented functions, names that extend an implemented one
 ALT = {'name': ['ALIAS', 'ALIAS2', 'ALIAS*1+ALIAS2'],       # defined names of the workbook whose definitions lead to a name that does not exist
        'ref': ['SUM((A1:A2,#REF!))', 'SUM(A1:A2 #REF!)', 'SUM(A1:#REF!)', 'S!#REF!', 'SUM(#REF!)', "'[b.xlsx]S'!#REF!"],
-       'func': ['FOO.SUM(A1)', 'SUM.FOO(A1)', 'SUMX(A1)', 'XSUM(A1)', 'CEILING.NOSUCH(A1,1)', 'T.NOSUCH(A1)'],
+       'book': ["'nodir/[c.xlsx]Alpha'!A1", "'sub/deeper/[c.xlsx]Beta'!A1", "'nodir/[b.xlsx]S'!A1"],      # a folder that does not exist, naming a workbook that exists elsewhere
+       'func': ['NOSUCHFUNC(#REF!)', 'NOSUCHFUNC(A1/0)', 'NOSUCHFUNC(1,#N/A)', 'FOO.SUM(A1)', 'SUM.FOO(A1)', 'SUMX(A1)', 'XSUM(A1)', 'CEILING.NOSUCH(A1,1)', 'T.NOSUCH(A1)'],
        'xlfn': ['_xlfn.ECMA.CEILING(A1,1)', '_xlfn.CONFIDENCE.T(A1,1,3)', '_xlfn._xlws.NEWSORT(A1)', '_xlfn.SUM.X(A1)', '_xlfn.X.SUM(A1)', '_xlfn.XSUM(A1)', '_XLFN.newfunc(A1)']}
 KIND = {'func': ['#NAME?'], 'xlfn': ['#NAME?'], 'sheet': ['#REF!'], 'book': ['#REF!'], 'unreadable': ['#REF!'], 'name': ['#REF!', '#NAME?'],
         'ref': ['#REF!'], 'link': ['#REF!', '#NAME?'], 'xsheetZ': ['#REF!'], 'xsheetA': ['#REF!'], 'name2': ['#REF!', '#NAME?'], 'xlslink': ['#REF!', '#NAME?']}
